@@ -29,7 +29,7 @@ theorem rb_remaining (cur last n : Nat) (h : cur ≤ last) (hl : last < 2^62) :
     ReadN_needFill n (ReadN_remaining cur last).remaining = decide (last - cur < n) := by
   have : (ReadN_remaining cur last).remaining = ((last - cur : Nat) : Int) := by
     simp only [ReadN_remaining, id_run, id_pure, id_bind]
-    rw [wrapI64_id _ (by omega) (by omega)]; omega
+    (try simp only [Go.wrapI]); omega
   refine ⟨this, ?_⟩
   rw [this]; simp only [ReadN_needFill]
   by_cases h2 : last - cur < n <;> simp [h2] <;> omega
@@ -43,7 +43,7 @@ theorem rb_cur (rem : Nat) (hr : rem < 2^62) :
     (rem ≤ Fit.Gen.Reader.reservedbuf → cur = ((if rem ≠ 0 then Fit.Gen.Reader.reservedbuf - rem else Fit.Gen.Reader.reservedbuf : Nat) : Int)) ∧
     ((ReadN_hasTail rem = true ∧ ReadN_copyDst cur < 0) ↔ (rem ≠ 0 ∧ Fit.Gen.Reader.reservedbuf < rem)) := by
   simp only [ReadN_hasTail, ReadN_curTail, ReadN_curInit, ReadN_copyDst, id_run, id_pure, id_bind, Fit.Gen.Reader.reservedbuf]
-  rw [wrapI64_id _ (by omega) (by omega)]
+  (try simp only [Go.wrapI])
   by_cases h0 : rem = 0
   · subst h0; simp
   · have : ((rem : Int) != 0) = true := by simp; omega
@@ -58,27 +58,28 @@ theorem rb_copy (cur last : Nat) (c : Int) (h : cur ≤ last) (hl : last < 2^62)
     ReadN_copyDst c = c ∧ ReadN_copySrc last (ReadN_remaining cur last).remaining = (cur : Int) := by
   rw [(rb_remaining cur last 0 h hl).1]
   simp only [ReadN_copyDst, ReadN_copySrc, true_and]
-  rw [wrapI64_id _ (by omega) (by omega)]; omega
+  (try simp only [Go.wrapI]); omega
 
 /-- the refill: `io.ReadAtLeast(b.r, b.buf[reservedbuf:], n-remaining)` reads into the cells from `reservedbuf` on and asks
 for at least `n - remaining` bytes (the model's `readAtLeast (b.len - reservedbuf) (n - remaining)`) -/
 theorem rb_fill (n rem : Nat) (h : rem < n) (hn : n < 2^62) :
     ReadN_fillLo = (Fit.Gen.Reader.reservedbuf : Int) ∧ ReadN_fillMin n rem = ((n - rem : Nat) : Int) := by
   simp only [ReadN_fillLo, ReadN_fillMin, Fit.Gen.Reader.reservedbuf]
-  rw [wrapI64_id _ (by omega) (by omega)]; omega
+  (try simp only [Go.wrapI]); omega
 
 /-- after the refill: `b.cur = cur; b.last = reservedbuf + nr` (the model's `cur := cur, last := reservedbuf + d.length`) -/
 theorem rb_refill (c0 l0 cur : Int) (nr : Nat) (h : nr < 2^62) :
     ReadN_refill c0 l0 cur nr = ⟨cur, ((Fit.Gen.Reader.reservedbuf + nr : Nat) : Int)⟩ := by
-  simp only [ReadN_refill, id_run, id_pure, id_bind, Fit.Gen.Reader.reservedbuf]
-  rw [wrapI64_id _ (by omega) (by omega)]; simp
+  simp only [ReadN_refill, id_run, id_pure, id_bind, Fit.Gen.Reader.reservedbuf, ReadN_refill.Out.mk.injEq, true_and]
+  (try simp only [Go.wrapI]); omega
 
 /-- the returned window `b.buf[b.cur : b.cur+n]` and `b.cur += n` (the model's `RB.slice`: cells `cur … cur+n`, then `cur + n`) -/
 theorem rb_window (cur n : Nat) (hc : cur < 2^62) (hn : n < 2^62) :
     ReadN_winLo cur = (cur : Int) ∧ ReadN_winHi cur n = ((cur + n : Nat) : Int) ∧
     (ReadN_window cur n).b_cur = ((cur + n : Nat) : Int) := by
   simp only [ReadN_winLo, ReadN_winHi, ReadN_window, id_run, id_pure, id_bind]
-  rw [wrapI64_id _ (by omega) (by omega)]; simp
+  (try simp only [Go.wrapI])
+  refine ⟨?_, ?_, ?_⟩ <;> first | exact True.intro | omega
 
 /-- `Reset`: the clamp of the requested size is the model's `clampSize`, for every Go `int` -/
 theorem rb_clamp (size : Int) : (Reset_clamp size).size = (clampSize size : Int) := by
@@ -96,8 +97,8 @@ theorem rb_reset (cap size : Nat) (hs : size < 2^62) :
     Reset_allocLen size = ((Fit.Gen.Reader.reservedbuf + size : Nat) : Int) ∧
     Reset_len size = ((Fit.Gen.Reader.reservedbuf + size : Nat) : Int) := by
   simp only [Reset_grow, Reset_allocLen, Reset_len, Fit.Gen.Reader.reservedbuf, Go.readbuffer.reservedbuf]
-  rw [wrapI64_id _ (by omega) (by omega)]
-  refine ⟨?_, by simp, by simp⟩
+  (try simp only [Go.wrapI])
+  refine ⟨?_, by omega, by omega⟩
   by_cases h : cap < 765 + size <;> simp [h] <;> omega
 
 end Fit.Go2Lean
